@@ -18,6 +18,9 @@ import (
 type vfC09Case struct {
 	Seed     int64        `json:"seed"`
 	Segments [][]vfInElem `json:"segments"` // one inbound history per connection (fresh, then resumptions)
+	// Refused[k]: the resumption attempted on connection k is refused with <failed/>; the client binds and enables
+	// stream management again - a new stream-managed session, which counts from zero
+	Refused []bool `json:"refused,omitempty"`
 }
 
 type vfC09Obs struct {
@@ -42,7 +45,11 @@ func vfC09Run(run *vfkit.Run, cs *vfC09Case) {
 			return
 		}
 		defer close(connDone[k])
-		o := &vfNeg{SM: true, ExpectEnable: k == 0, SMResume: "true", SMID: "sess-1", ExpectPresence: k == 0, Bind: true, Resume: "resumed"}
+		refused := k < len(cs.Refused) && cs.Refused[k]
+		o := &vfNeg{SM: true, ExpectEnable: k == 0 || refused, SMResume: "true", SMID: fmt.Sprintf("sess-%d", k+1), ExpectPresence: k == 0, Bind: true, Resume: "resumed"}
+		if refused {
+			o.Resume = "failed"
+		}
 		if k == 0 {
 			if _, err := pc.Negotiate(o); err != nil {
 				obs.perr = fmt.Errorf("conn %d: %v", k, err)
@@ -50,7 +57,7 @@ func vfC09Run(run *vfkit.Run, cs *vfC09Case) {
 			}
 		} else {
 			// same negotiation, but the client must ask to resume; record what it asks
-			if out, err := pc.Negotiate(o); err != nil || out != "resumed" {
+			if out, err := pc.Negotiate(o); err != nil || (out != "resumed" && !refused) || (refused && out != "bound+sm") {
 				obs.perr = fmt.Errorf("conn %d: negotiation ended with %q, %v", k, out, err)
 				return
 			}
@@ -173,6 +180,10 @@ func vfC09Run(run *vfkit.Run, cs *vfC09Case) {
 				return
 			}
 			run.Count("resume_counts_checked", 1)
+			if k < len(cs.Refused) && cs.Refused[k] {
+				total = 0 // refused: what follows is a new stream-managed session
+				run.Count("fresh_sessions_after_refusal", 1)
+			}
 		}
 		obs.mu.Lock()
 		hs := append([]string(nil), obs.answers[k]...)
@@ -233,6 +244,7 @@ func TestVf_C09(t *testing.T) {
 				}
 				for s := 0; s < nseg; s++ {
 					cs.Segments = append(cs.Segments, vfGenInbound(r, r.Intn(maxLen), "", true, fmt.Sprintf("h%d-%d", c, s)))
+					cs.Refused = append(cs.Refused, s > 0 && r.Intn(3) == 0)
 				}
 				run.Case(cs)
 				if c < 2 {
